@@ -35,6 +35,7 @@ REQUIRED = {"template[synthetic-unit-filled]": 10,
             "template[synthetic-thin]": 10, "decodes_judged": 500,
             "witness_layouts_judged": 400,
             "hardness_evaluations": 10, "fresh_process_references": 4,
+            "decodes_from_a_reused_point_buffer": 50,
             "hardness_sibling_histories": 2, "errors_of_template_zero": 5,
             "extreme_value_vectors": 100}
 
@@ -43,6 +44,7 @@ class StopShard(Exception):
 
 
 TRACER: DecodeTracer | None = None
+DECODERS: dict = {}
 STATE = {"ctx": None, "case": None, "last": None}
 
 SHIPPED = ("a01", "a04", "a08", "a10", "a20", "beng01", "beng02", "beng05",
@@ -346,8 +348,21 @@ def one(ctx, tcase, k, x=None, tag=None):
                      "x": [float(v) for v in x], "tag": tag}
     ctx.case()
     y: list = []
+    # optimisers overwrite their point buffers in place: the decoder sees
+    # the same array object again with other contents (one buffer per
+    # length for the whole shard), and a long-lived decoder per template
+    if isinstance(tcase, str):
+        dkey = (tcase, len(x))
+        if dkey not in DECODERS:
+            DECODERS[dkey] = (dec, np.empty(len(x)))
+        dec, buf = DECODERS[dkey]
+        buf[:] = x
+        x_in = buf
+        ctx.count("decodes_from_a_reused_point_buffer")
+    else:
+        x_in = x
     try:
-        dec.decode(x, y)              # wrapped: tracer + postconditions
+        dec.decode(x_in, y)           # wrapped: tracer + postconditions
     except DecodeBudgetExceeded:
         STATE["case"] = None
         STATE["hung"] = STATE.get("hung", 0) + 1
